@@ -64,3 +64,35 @@ func init() {
 		rules:      []func(*Ctx){ruleScale("C07")},
 	})
 }
+
+const whyWidth = "two squares scaled by 2^40 realise the operand widths: a wrapped product gives CrossProduct=0 for a left turn, a zero area for a huge polygon, or a wrong intersection point — a wrong region, silently"
+
+func init() {
+	register(&propDef{
+		id: "C13",
+		explanation: "Decides the 'no intermediate exceeds 64 bits' clause of C13: with every coordinate bounded by 2^61 (MaxCoord) a magnitude-bits abstract interpretation of all int64 +,-,* in the package (interprocedural parameter/return widths) shows no result can need more than 63 bits (width), and no integer is taken through float64 and back when it may exceed 53 bits (roundtrip). Products are formed by the 128-bit helpers, whose limb arithmetic is trusted. Does NOT decide the growth of float rounding error (the '2 units + 2^-40 extent' bound itself).",
+		notDecided: []string{"float rounding error growth in getDx/topX/getClosestPtOnSegment/offset constructors", "correctness of the 128-bit limb arithmetic (mulInt64, int128.add/sub/toFloat64, multiplyUInt64): bit-vector identities", "translation invariance of float expressions"},
+		assumptions: []string{"a float the library converts to int64 has coordinate-difference magnitude (w+1 bits)", "`int` quantities (indices, counts, winding numbers) stay below 2^31"},
+		rules: []func(*Ctx){
+			ruleWidth("C13.width", 61, nil, 40, whyWidth),
+			ruleRoundTrip("C13.roundtrip", 61),
+		},
+	})
+}
+
+var exactPredicates = []string{"CrossProduct", "isCollinear", "productsAreEqual", "PointInPolygon", "Path2ContainsPath1", "segsIntersect", "Area64", "dotProduct64", "getSegmentIntersection", "pointInOpPolygon"}
+
+func init() {
+	register(&propDef{
+		id: "C14",
+		explanation: "Decides structural clauses of C14 at |coord| <= 2^29: (sign) triSign is the sign function on every cell {x<0, 0, 1, x>1}; (exact) no int64 +,-,* in the measure/predicate functions can exceed 63 bits and no float operation in them combines integer-derived operands beyond the 53-bit mantissa, so the sign/zero tests of the cross product are exact (the 128-bit helpers' limb arithmetic is trusted); (bounds) the bounds accumulators start at the correct extreme, each bound is a min/max over its own axis and the four updates are independent; (pos) IsPositive64 is Area64 >= 0 and AreaPaths64 sums Area64. Does NOT decide the crossing-number walk of PointInPolygon or the 128-bit limb identities.",
+		notDecided: []string{"PointInPolygon's crossing-number walk (start-index wrap, IsOn cases)", "multiplyUInt64 / mulInt64 / int128 limb arithmetic (bit-vector identities)", "Area64's final halving in float64"},
+		rules: []func(*Ctx){
+			ruleTriSign("C14.sign"),
+			ruleWidth("C14.exact.int", 29, exactPredicates, 10, "at |coord| <= 2^29 every difference has 30 bits and every product 60: anything wider means a wrapped or truncated intermediate, i.e. a wrong sign for some triple"),
+			ruleExactFloat("C14.exact.float", 29, exactPredicates, "the library treats three points as collinear / a point as on an edge exactly when this value is zero: a float detour beyond 53 bits rounds small non-zero cross products to zero (PointInPolygon answers IsOn for an inside point next to a long edge)"),
+			ruleBounds("C14.bounds", []string{"GetBounds64", "getBounds"}),
+			rulePositive("C14.pos"),
+		},
+	})
+}
